@@ -558,9 +558,7 @@ func PutSelectStatement(stmt *SelectStatement) {
 	}
 	stmt.Columns = stmt.Columns[:0]
 
-	for i := range stmt.OrderBy {
-		stmt.OrderBy[i].Expression = nil
-	}
+	clear(stmt.OrderBy) // the whole element, not only its expression: the array is kept
 	stmt.OrderBy = stmt.OrderBy[:0]
 
 	stmt.TableName = ""
@@ -801,6 +799,7 @@ func PutExpression(expr Expression) {
 				workQueue = append(workQueue, e.ElseClause)
 			}
 			e.Value = nil
+			clear(e.WhenClauses) // the kept array must not go on pointing at released nodes
 			e.WhenClauses = e.WhenClauses[:0]
 			e.ElseClause = nil
 			*e = CaseExpression{WhenClauses: e.WhenClauses} // every other field back to its zero value
@@ -869,6 +868,7 @@ func PutExpression(expr Expression) {
 				}
 			}
 			e.Array = nil
+			clear(e.Indices) // the kept array must not go on pointing at released nodes
 			e.Indices = e.Indices[:0]
 			*e = ArraySubscriptExpression{Indices: e.Indices} // every other field back to its zero value
 			arraySubscriptExprPool.Put(e)
@@ -1055,6 +1055,7 @@ func PutCaseExpression(ce *CaseExpression) {
 		PutExpression(ce.WhenClauses[i].Condition)
 		PutExpression(ce.WhenClauses[i].Result)
 	}
+	clear(ce.WhenClauses) // the kept array must not go on pointing at released nodes
 	ce.WhenClauses = ce.WhenClauses[:0]
 	PutExpression(ce.ElseClause)
 	ce.ElseClause = nil
